@@ -268,3 +268,79 @@ Proof.
 Qed.
 
 End WithGroupBy.
+
+(* ---- top level: distinct / drop_duplicates and count ---------------------------------------------- *)
+Lemma key_rows_kcs cols by_ kr : key_rows cols by_ = Some kr ->
+  exists kcs, key_columns cols by_ = Some kcs /\ kr = FilterIndexSpec.rows_of (nrows cols) kcs.
+Proof.
+  unfold key_rows. destruct (key_columns cols by_) as [kcs|]; [|discriminate].
+  intros H. inversion H. exists kcs. split; reflexivity.
+Qed.
+
+Lemma key_columns_length cols : forall by_ kcs, key_columns cols by_ = Some kcs -> len kcs = len by_.
+Proof.
+  induction by_ as [|k t IH]; intros kcs H; cbn [key_columns fold_right] in H.
+  - inversion H. reflexivity.
+  - fold (key_columns cols t) in H. destruct (lookup k cols); [|discriminate].
+    destruct (key_columns cols t) as [l|]; [|discriminate]. inversion H. rewrite !len_cons, (IH l eq_refl). reflexivity.
+Qed.
+
+Theorem write_keys_correct cols by_ hint kr ddf :
+  groupby_pre cols by_ hint = true -> key_rows cols by_ = Some kr ->
+  fresh_names (spec_key_cols cols by_ (groups kr)) ddf = true ->
+  write_groupby_keys cols (gb_of by_ hint kr) by_ ddf = Ok (ddf ++ spec_key_cols cols by_ (groups kr)).
+Proof.
+  intros Hpre Hkr Hfresh. destruct (key_rows_kcs cols by_ kr Hkr) as [kcs [Hkc Hkr']].
+  unfold spec_key_cols in *.
+  apply (write_keys_from cols by_ hint kr kcs Hpre Hkc Hkr' by_ 0 ddf kcs Hkc); try reflexivity; try lia.
+  - rewrite (key_columns_length cols by_ kcs Hkc). lia.
+  - exact Hfresh.
+  - intros k f Hin Hl.
+    destruct (pre_unpack cols by_ hint kcs Hpre Hkc) as [rd (Hok & _)].
+    destruct (lookup_in k cols f Hl) as [_ [k' Hin']].
+    exact (frame_ok_in (nrows cols) cols (k', f) Hok Hin').
+Qed.
+
+(* drop_duplicates / groupby(...).distinct(): one row per distinct key tuple, ascending; every key column keeps its
+   class / dtype / strlen / categorical key (dest_col copies the metadata) *)
+Theorem drop_duplicates_correct_pf cols by_ hint kr ddf :
+  groupby_pre cols by_ hint = true -> key_rows cols by_ = Some kr ->
+  fresh_names (spec_key_cols cols by_ (groups kr)) ddf = true ->
+  df_drop_duplicates cols by_ ddf hint = Ok (ddf ++ spec_key_cols cols by_ (groups kr)).
+Proof.
+  intros Hpre Hkr Hfresh. unfold df_drop_duplicates. rewrite (df_groupby_correct cols by_ hint kr Hpre Hkr).
+  cbn [bind]. unfold gb_distinct, maybe_write_keys.
+  replace (g_by (gb_of by_ hint kr)) with by_ by (unfold gb_of; destruct (hint || _); reflexivity).
+  apply write_keys_correct; assumption.
+Qed.
+
+(* count: keys (when asked for) and the sizes of the groups *)
+Lemma g_by_eq by_ hint kr : g_by (gb_of by_ hint kr) = by_.
+Proof. unfold gb_of. destruct (hint || _); reflexivity. Qed.
+
+Lemma maybe_write_keys_correct cols by_ hint kr ddf wk :
+  groupby_pre cols by_ hint = true -> key_rows cols by_ = Some kr ->
+  let keys := if wk:bool then spec_key_cols cols by_ (groups kr) else [] in
+  fresh_names keys ddf = true ->
+  maybe_write_keys cols (gb_of by_ hint kr) ddf wk = Ok (ddf ++ keys).
+Proof.
+  intros Hpre Hkr keys Hfresh. unfold maybe_write_keys. rewrite g_by_eq. subst keys. destruct wk.
+  - apply write_keys_correct; assumption.
+  - rewrite app_nil_r. reflexivity.
+Qed.
+
+Theorem gb_count_correct_pf cols by_ hint kr ddf wk :
+  groupby_pre cols by_ hint = true -> key_rows cols by_ = Some kr ->
+  let keys := if wk:bool then spec_key_cols cols by_ (groups kr) else [] in
+  fresh_names keys ddf = true -> has_name COUNT_NAME (ddf ++ keys) = false ->
+  gb_count cols (gb_of by_ hint kr) ddf wk = Ok (ddf ++ keys ++ [spec_count_col kr]).
+Proof.
+  intros Hpre Hkr keys Hfresh Hcn. destruct (key_rows_kcs cols by_ kr Hkr) as [kcs [Hkc Hkr']].
+  unfold gb_count. rewrite (maybe_write_keys_correct cols by_ hint kr ddf wk Hpre Hkr Hfresh). cbn [bind].
+  rewrite (g_spans_eq cols by_ hint kr kcs Hpre Hkc Hkr').
+  pose proof (sp_len cols by_ hint kr kcs Hpre Hkc Hkr') as Hl.
+  unfold np_zeros. destruct (len (spans_ref rneqb (sort_rows kr)) - 1 <? 0) eqn:E; [lia|]. cbn [bind].
+  rewrite apply_spans_count_ref by exact Hl. cbn [bind]. fold keys. rewrite Hcn.
+  rewrite <- app_assoc. unfold spec_count_col, ds_write. cbn [app].
+  rewrite (sorted_spans_count (V:=list (list Z)) [] kr kr eq_refl). reflexivity.
+Qed.
